@@ -19,7 +19,7 @@ RULE = (
     "positions leaves the other coordinates unchanged and puts ~0 in the new ones (every aggregator but GradDrop, "
     "whose draws are per column; PCGrad/Random under a fixed seed, PCGrad with a scripted schedule so that its "
     "branch margins can be evaluated). Tolerances per algorithm (vlib/relations.py); MGDA two-level (fp when all "
-    "Frank-Wolfe margins exceed the threshold on both sides, else d(J)+d(J')); Krum/PCGrad away from ties; pinv/eigh/"
+    "Frank-Wolfe margins exceed the threshold on both sides, else d(J)+d(J')); Krum away from score ties (PCGrad is continuous at a vanishing inner product: its branch ties are checked, family `orthoblock` produces them); pinv/eigh/"
     "conic ones on full-row-rank matrices of bounded condition number. Non-trivial = (orth with a dense Q and m >= 2 "
     "with a conflicting pair) or (a column permutation moving >= 2 columns) or (span/zerocol with m >= 2). "
     "Distinct = distinct (configuration, J, relation, transformation)."
